@@ -129,11 +129,15 @@ class TaskController(Target):
                   producerInstances=['p'] if has_producers else [], executable='x', arguments='y',
                   workingDirectory=Obj('wd', directory='/inst/stages/stage0/c'))
         sd = {'repeatRetries': retries, 'numberTaskLaunches': 0}
+        # the task of the PREVIOUS round is still referenced by the engine when this round starts
+        prev = c.one_of('task_of_the_previous_round', ['none', 'succeeded', 'failed'])
+        previous = None if prev == 'none' else Obj('previous-task', wait=Extern('Task.wait', lambda c: None),
+                                                   returncode=0 if prev == 'succeeded' else 1)
         this = Obj('repeating-engine', log=NULLLOG, job=job, _suicide=suicide, kernelCompleted=False,
                    producer_recently_finished_successfully=True, _producers_are_finished=Volatile(read_pd),
                    lastLaunched=mk_time(c, last_launched), _stateDict=sd, _consume=consume0, consume=consume0,
                    canConsume=Extern('canConsume', can_consume), taskGenerator=Extern('taskGenerator', task_generator),
-                   process=None, emit_now=Extern('emit_now', lambda c: None), kill=Extern('kill', kill),
+                   process=previous, emit_now=Extern('emit_now', lambda c: None), kill=Extern('kill', kill),
                    _perfData_initialize=Extern('pd1', lambda c, *a: 'perf'), _perfData_before_launch=Extern('pd2', lambda c, *a: 'perf'),
                    _perfData_launch_failed=Extern('pd3', lambda c, *a: 'perf'), _perfData_launch_succeeded=Extern('pd4', lambda c, *a: 'perf'),
                    _perfData_register=Extern('pd5', lambda c, *a: None))
